@@ -87,6 +87,9 @@ inductive Feed
   | sensors (m t : Nat)         -- ecoMAX sensor data with mixers 0..m-1 and thermostats 0..t-1
   | foreign                     -- valid frame for another recipient: read() returns None
   | bad                         -- checksum error: read() raises a ProtocolError
+  | undec                       -- wire-valid ecoMAX sensor data whose payload cannot be decoded: `handle_frame` raises
+  | orphan (addr : Nat)         -- frame for us from a known address that has no device class (ecoNET, broadcast):
+                                -- `get_device_entry` raises, the consumer logs it and carries on
 deriving DecidableEq, Repr
 
 structure St where
@@ -173,6 +176,8 @@ def kindSensors : Nat := lookupNat Gen.frameTypes "MESSAGE_SENSOR_DATA"
 /-- kind of the requests the harness queues on behalf of the user (not a set-up request) -/
 def kindUser : Nat := lookupNat Gen.frameTypes "REQUEST_PROGRAM_VERSION"
 def ecomaxAddr : Nat := lookupNat Gen.deviceTypes "ECOMAX"
+/-- pseudo kind of a frame that reaches its device object but cannot be decoded there -/
+def kindUndec : Nat := 0
 
 /-- request kinds queued by one round of `async_setup`; the password request is not repeated
 once the password is known -/
@@ -255,6 +260,12 @@ def updDev (ds : List Dev) (addr : Nat) (f : Dev → Dev) : List Dev :=
 def handle (s : St) : Feed → St × List Out
   | .foreign => (s, [])
   | .bad => (s, [])
+  | .orphan a => (s, [.deliver a kindUndec])   -- disposed of without a device object
+  | .undec =>
+    -- the device entry exists (it was looked up / created before `handle_frame`); decoding raises inside
+    -- `handle_frame`, the consumer logs it and carries on: the frame reached its device object, nothing is dispatched
+    let r := ensureDev s.devices ecomaxAddr
+    ({ s with devices := r.1 }, r.2 ++ [.deliver ecomaxAddr kindUndec])
   | .pw addr =>
     let r := ensureDev s.devices addr
     ({ s with devices := updDev r.1 addr (fun d => { d with pw := true }) }, r.2 ++ [.deliver addr kindPassword])
@@ -270,6 +281,8 @@ malformed frames never get that far) -/
 def Feed.addr? : Feed → Option (Nat × Nat)
   | .pw a => some (a, kindPassword)
   | .sensors _ _ => some (ecomaxAddr, kindSensors)
+  | .undec => some (ecomaxAddr, kindUndec)
+  | .orphan a => some (a, kindUndec)
   | .foreign => none
   | .bad => none
 
@@ -317,10 +330,15 @@ def finishFrame (s : St) (f : Feed) : St × List Out :=
     (if s2.connected then s2 else { s2 with consumers := s2.consumers - 1 }, r.2)
 
 /-- a consumer that holds frame `f` and the entry lock: enter, then finish unless a subscriber blocks -/
+def hasClass : Feed → Bool
+  | .orphan _ => false
+  | _ => true
+
 def process (s : St) (f : Feed) : St × List Out × Bool :=
   match f.addr? with
   | none => (s, [], false)
   | some (ad, _) =>
+    if !hasClass f then let r := finishFrame s f; (r.1, r.2, false) else
     let e := enter s ad
     if e.2.2 then (e.1, e.2.1, true)
     else let r := finishFrame e.1 f; (r.1, e.2.1 ++ r.2, false)
